@@ -26,6 +26,8 @@ def exact_unitaries(rng):
         [1, 0, 0, 0, 0, 0, 1, 0], [0, 0, 1, 0, 1, 0, 0, 0], [1, 0, 0, 0, 0, 0, 0, 1], [0, 0, 0, -1, 0, 1, 0, 0],
         [0.6, 0, 0.8, 0, 0.8, 0, -0.6, 0], [0.6, 0, 0, 0.8, 0, 0.8, 0.6, 0], [0, 0.6, 0.8, 0, -0.8, 0, 0, -0.6],
         [h, 0, h, 0, h, 0, -h, 0], [h, 0, 0, -h, 0, -h, h, 0], [0.28, 0, 0.96, 0, 0.96, 0, -0.28, 0], [0, 1, 0, 0, 0, 0, 0, -1],
+        # non-symmetric ones (M^T != M): a transposition slip in the adjoint is visible only on these
+        [0.6, 0, -0.8, 0, 0.8, 0, 0.6, 0], [0.28, 0, 0.96, 0, -0.96, 0, 0.28, 0], [0.6, 0, -0.8, 0, 0, 0.8, 0, 0.6], [0, 0.8, 0.6, 0, -0.6, 0, 0, -0.8],
     ]
     return [[float2bits(x) for x in c] for c in cands]
 
